@@ -200,13 +200,18 @@ def check_term(rep, flow, f, cp, pi, r, term, which):
                 else:
                     rep.ok("P3", 1, nontrivial=(f.fq, pi, gate, "none"))
         elif h == "emit":
-            if "P2" in which:
-                if leaf[2] >= 2:
-                    rep.finding("P2", f"{f.fq}:emit:{leaf[1]}", f"{where}: glue code emits the {leaf[2]}-qubit gate {leaf[1]} (not read from a table)", {"term": t_fmt(term)})
-                else:
-                    rep.ok("P2", 1, nontrivial=(f.fq, leaf[1]), sample=f"{f.qualname}: emits {leaf[1]}/1")
-            if "P1" in which and leaf[2] >= 2:
-                rep.finding("P1", f"{f.fq}:emit:{leaf[1]}", f"{where}: {leaf[2]}-qubit gate {leaf[1]} in the result does not come from a table", {"term": t_fmt(term)})
+            if leaf[2] >= 2 and ("P1" in which or "P2" in which):
+                verdict, why = glue_two_qubit_verdict(f, cp, r, leaf)
+                if verdict == "undecidable":
+                    raise AnalysisError(f"{where}: {why}")
+                if verdict == "always-coupled":
+                    rep.note(f"{where}: {why}")
+                    continue
+                for rid in ("P2", "P1"):
+                    if rid in which:
+                        rep.finding(rid, f"{f.fq}:emit:{leaf[1]}", f"{where}: glue code emits the {leaf[2]}-qubit gate {leaf[1]} (not read from a table): {why}", {"term": t_fmt(term)})
+            elif "P2" in which:
+                rep.ok("P2", 1, nontrivial=(f.fq, leaf[1]), sample=f"{f.qualname}: emits {leaf[1]}/1")
         elif h == "param":
             if "P1" in which:
                 if f.module.name == "tomography" and leaf[1] == "preparation_circuit" and not mapped and not inv:
@@ -219,6 +224,47 @@ def check_term(rep, flow, f, cp, pi, r, term, which):
             raise AnalysisError(f"{where}: opaque circuit in result: {leaf[1]}")
         else:
             raise AnalysisError(f"{where}: unknown term leaf {leaf!r}")
+
+
+def _mentions(k, target):
+    """does key k mention `target` - other than as part of a table file's NAME (a value read from the table of the
+    requested connectivity depends on the connectivity, but is no check against the coupling graph)"""
+    if k == target:
+        return True
+    if isinstance(k, tuple):
+        if k and k[0] in ("filetext",):
+            return False
+        return any(_mentions(x, target) for x in k)
+    return False
+
+
+def glue_two_qubit_verdict(f, cp, r, leaf):
+    """a multi-qubit gate appended by glue code (not read from a table):
+    'always-coupled'  constant operands that are an edge of every advertised configuration large enough
+    'violation'       the emission does not depend on the connectivity at all -> some configuration lacks the pair
+    'undecidable'     the path to the emission is conditioned on the connectivity (a run-time check decides)"""
+    gate = leaf[1]
+    ops = [ev for ev in r.events if ev[0] == "glue-2q" and ev[1] == gate]
+    if leaf[2] > 2:
+        return "violation", "a gate on more than two qubits"
+    const_pairs = []
+    all_const = bool(ops)
+    for ev in ops:
+        ks = ev[2]
+        if len(ks) == 2 and all(isinstance(k, tuple) and k and k[0] == "const" and isinstance(k[2], int) for k in ks):
+            const_pairs.append((ks[0][2], ks[1][2], ev[3]))
+        else:
+            all_const = False
+    if all_const:
+        for (a, b, w) in const_pairs:
+            for (n, c) in spec.ADVERTISED:
+                if n > max(a, b) and frozenset((a, b)) not in spec.edges(n, c):
+                    return "violation", f"({a},{b}) emitted at {w} is not an edge of ({n}, {c!r})"
+        return "always-coupled", f"{gate} on the constant pair(s) {[(a, b) for a, b, _ in const_pairs]} is an edge of every advertised configuration"
+    if cp is not None and any(_mentions(k, ("param", cp)) for k in r.decisions):
+        return "undecidable", (f"a {gate} gate is appended outside the tables on a path whose conditions depend on `{cp}` "
+                               f"({'; '.join(ev[3] for ev in ops[:2])}): whether its operands are coupled is decided by a run-time check, not by the shape of the code")
+    return "violation", f"its operands ({'; '.join(fmt(k) for ev in ops[:1] for k in ev[2])}) do not depend on the requested connectivity"
 
 
 def core_without_sign_layer(t):
